@@ -112,7 +112,19 @@ pub fn cells() -> Vec<Cell>
 	let mut out = Vec::new();
 	for (k, (kname, ptype, read, write, is_pointer)) in KINDS.iter().enumerate()
 	{
-		for action in ["read", "write", "write in a branch after comparing with a literal", "write in a branch after comparing a literal with it", "write in a nested block", "write after a label", "write after an unrelated comparison"]
+		for action in [
+			"read",
+			"write",
+			"write in a branch after comparing with a literal",
+			"write in a branch after comparing a literal with it",
+			"write in a nested block",
+			"write after a label",
+			"write after an unrelated comparison",
+			"write in an else branch",
+			"write in the then branch of an else-if",
+			"write in the else branch of an else-if chain",
+			"write in a block that loops",
+		]
 		{
 			for (a, (arg, base, amps, target)) in ARGS.iter().enumerate()
 			{
@@ -124,6 +136,10 @@ pub fn cells() -> Vec<Cell>
 					"write in a branch after comparing a literal with it" => format!("\tif 77i32 != {read}\n\t{{\n\t\t{write}\n\t}}\n"),
 					"write in a nested block" => format!("\t{{\n\t\t{{\n\t\t\t{write}\n\t\t}}\n\t}}\n"),
 					"write after a label" => format!("\tgoto next;\n\tnext:\n\t{write}\n"),
+					"write in an else branch" => format!("\tif 1i32 == 2i32\n\t{{\n\t}}\n\telse\n\t{{\n\t\t{write}\n\t}}\n"),
+					"write in the then branch of an else-if" => format!("\tif 1i32 == 2i32\n\t{{\n\t}}\n\telse if 1i32 == 1i32\n\t{{\n\t\t{write}\n\t}}\n"),
+					"write in the else branch of an else-if chain" => format!("\tif 1i32 == 2i32\n\t{{\n\t}}\n\telse if 1i32 == 3i32\n\t{{\n\t}}\n\telse\n\t{{\n\t\t{write}\n\t}}\n"),
+					"write in a block that loops" => format!("\tvar i: i32 = 0;\n\t{{\n\t\tif i == 1i32\n\t\t\tgoto done;\n\t\ti = i + 1;\n\t\t{write}\n\t\tloop;\n\t}}\n\tdone:\n"),
 					_ => format!("\tif 1i32 == 1i32\n\t{{\n\t}}\n\t{write}\n"),
 				};
 				let action_full = action;
